@@ -159,8 +159,9 @@ func (mb *mbox) writeIndex() error {
 		if err := mb.createDir(); err != nil {
 			return err
 		}
-		// Open index for writing
-		file, err := os.Create(mb.indexPath)
+		// Write a new index beside the live one, then atomically replace it.
+		tmpPath := mb.indexPath + ".tmp"
+		file, err := os.Create(tmpPath)
 		if err != nil {
 			return err
 		}
@@ -186,9 +187,16 @@ func (mb *mbox) writeIndex() error {
 				Msg("Failed to close")
 			return err
 		}
+		if err := os.Rename(tmpPath, mb.indexPath); err != nil {
+			return err
+		}
 	} else {
-		// No messages, delete index+maildir
+		// No messages, delete index+maildir; the index goes first so that an interrupted
+		// removal never leaves it listing messages whose content is gone.
 		log.Debug().Str("module", "storage").Str("path", mb.path).Msg("Removing mailbox")
+		if err := os.Remove(mb.indexPath); err != nil && !os.IsNotExist(err) {
+			return err
+		}
 		return mb.removeDir()
 	}
 	return nil
